@@ -57,10 +57,65 @@ decreasing_by
   all_goals simp_wf
   all_goals first | omega | (simp [List.length_drop]; omega)
 
-/-- `Channel.read()` applied to one transport chunk (sync_channel.py:55-82): drop CR, (log),
+/-- one transport chunk cleaned on its own (no sequence cut by the chunk boundary): drop CR,
     strip escape sequences only if the chunk contains ESC -/
 def chanRead (chunk : Bytes) : Bytes :=
   let b := stripCR chunk
   if b.contains ESC then stripAnsi b else b
+
+/-! ### sequences cut by a read boundary (fix: `_strip_ansi_read`, base_channel.py)
+
+      ANSI_ESCAPE_INCOMPLETE_PATTERN = \x1B(\s)?((\](\d[^\x07\n]*)?)|(\[[^@-~\n]*))?\Z
+
+  searched (leftmost) in the STRIPPED buffer; what it matches is held back for the next read
+  (at most 256 bytes). -/
+
+/-- `[^…\n]*\Z`: no byte is a terminator or a newline -/
+def noneStop (p : UInt8 → Bool) (b : Bytes) : Bool := b.all (fun c => !p c && c != NL)
+
+/-- `((\](\d[^\x07\n]*)?)|(\[[^@-~\n]*))?\Z` -/
+def incompleteBody : Bytes → Bool
+  | [] => true
+  | c :: t =>
+    if c == 93 then
+      match t with
+      | [] => true
+      | d :: t' => isDigit d && noneStop (· == 7) t'
+    else if c == 91 then noneStop isFinal t
+    else false
+
+/-- the incomplete pattern matched right after an ESC byte (the optional whitespace byte cannot be
+    given back: no alternative starts with whitespace) -/
+def incompleteAfter : Bytes → Bool
+  | [] => true
+  | c :: t => if isWs c then incompleteBody t else incompleteBody (c :: t)
+
+def heldMax : Nat := 256
+
+/-- `re.search(ANSI_ESCAPE_INCOMPLETE_PATTERN, buf)`: (what is returned, what is held back) -/
+def splitHeld : Bytes → Bytes × Bytes
+  | [] => ([], [])
+  | c :: t =>
+    if c == ESC && incompleteAfter t then
+      (if t.length + 1 ≤ heldMax then ([], c :: t) else (c :: t, []))
+    else
+      let r := splitHeld t
+      (c :: r.1, r.2)
+
+/-- `Channel.read()` applied to one transport chunk (sync_channel.py:55-81, `_strip_ansi_read`):
+    drop CR, (log), put the held-back beginning of a sequence in front, strip only if there is an
+    ESC, hold back a sequence cut by the end of the read.  Returns (output, held back). -/
+def cleanBuf (b : Bytes) : Bytes × Bytes :=
+  if b.contains ESC then splitHeld (stripAnsi b) else (b, [])
+
+def chanReadH (held chunk : Bytes) : Bytes × Bytes := cleanBuf (held ++ stripCR chunk)
+
+/-- the outputs of a series of reads and what is held back after them -/
+def cleanPieces : Bytes → List Bytes → List Bytes × Bytes
+  | h, [] => ([], h)
+  | h, c :: cs =>
+    let r := chanReadH h c
+    let rs := cleanPieces r.2 cs
+    (r.1 :: rs.1, rs.2)
 
 end Scrapli.Chan
